@@ -61,6 +61,9 @@ def render(on):
         qf.append("old(i: OldIn): Old")
     if "repeatable_directive" in on:
         parts.append(f'{d}directive @tag(name: String!) repeatable on FIELD_DEFINITION | OBJECT | ENUM_VALUE')
+    if "directive_named_like_codegen_helper" in on:
+        parts.append('directive @mixin(from: String, import: String, extra: Int = 1) repeatable on FIELD | FRAGMENT_DEFINITION | OBJECT\n'
+                     'directive @unset(reason: String) on FIELD_DEFINITION')
     if "directive_args" in on:
         parts.append('directive @limit(max: Int = 100, mode: Size = SMALL, names: [String!] = ["a"]) on FIELD_DEFINITION | ARGUMENT_DEFINITION | QUERY')
     if "specified_by" in on:
